@@ -512,12 +512,10 @@ func (s *Snapshotter) compact() error {
 	s.fh.Close()
 	s.fh = nil
 
-	// Delete the old file
-	if err := os.Remove(s.path); err != nil {
-		return fmt.Errorf("failed to remove old snapshot: %v", err)
-	}
-
-	// Move the new file into place
+	// Move the new file into place. os.Rename replaces an existing destination atomically
+	// (also on Windows, where Go uses MoveFileEx with MOVEFILE_REPLACE_EXISTING), so the old
+	// snapshot is never deleted before the new one is installed: a crash at any point leaves
+	// either the old or the new snapshot, never none.
 	if err := os.Rename(newPath, s.path); err != nil {
 		return fmt.Errorf("failed to install new snapshot: %v", err)
 	}
